@@ -424,6 +424,19 @@ fn check_converter(
             rep.v(lf, "conv-page", "row-count", format!("converter data page row counts {got:?}, the pages hold {want:?} rows"));
         }
     }
+    // the same for a row-group selection that is not 0,1,2,...: reversed order and the last group only
+    // (as after row-group pruning)
+    if n_rg >= 2 {
+        for sel in [(0..n_rg).rev().collect::<Vec<usize>>(), vec![n_rg - 1]] {
+            if let Some(Some(rc)) = get!("data_page_row_counts", conv.data_page_row_counts(pi, rgs, sel.iter())) {
+                let want: Vec<u64> = sel.iter().flat_map(|g| page_rows[*g].as_ref().unwrap().iter().map(|(a, b)| (b - a) as u64)).collect();
+                let got: Vec<u64> = (0..rc.len()).map(|i| rc.value(i)).collect();
+                if got != want {
+                    rep.v(lf, "conv-page", "row-count-selected-row-groups", format!("row groups {sel:?}: converter data page row counts {got:?}, the pages hold {want:?} rows"));
+                }
+            }
+        }
+    }
 }
 
 /// Everything for one file. `model`: the rows as the caller wrote them (Arrow level), if known.
